@@ -342,7 +342,39 @@ func checkC16(c *core.Ctx, l *core.Ledger) {
 	}
 	if f := c.SSAFunc(c.LookupFunc("internal/frame", "Server.Stop")); f != nil {
 		ok := len(callsIn(f, "Swap")) == 1 && len(callsIn(f, "Close")) == 1 && len(callsIn(f, "Write")) == 0
-		l.Check(ok, "FRAMES", "Server.Stop", c.Rel(f.Pos()), "Stop flips the running flag and closes the reader only (the reply to Goodbye can still be written)", "Stop does more than flipping the flag and closing the reader")
+		why := "Stop does more than flipping the flag and closing the reader"
+		if ok {
+			// the reader is closed exactly when the server was running: the Close lies under the edge on which the
+			// swapped-out old value of the flag is true (followed through negations)
+			sw, _ := callsIn(f, "Swap")[0].(ssa.Value)
+			cl := callsIn(f, "Close")[0]
+			var edges []core.Edge
+			var walk func(v ssa.Value, neg bool, d int)
+			walk = func(v ssa.Value, neg bool, d int) {
+				if v == nil || d > 4 || v.Referrers() == nil {
+					return
+				}
+				for _, r := range *v.Referrers() {
+					switch x := r.(type) {
+					case *ssa.If:
+						idx := 0
+						if neg {
+							idx = 1
+						}
+						edges = append(edges, core.Edge{From: x.Block(), To: x.Block().Succs[idx]})
+					case *ssa.UnOp:
+						if x.Op == token.NOT {
+							walk(x, !neg, d+1)
+						}
+					}
+				}
+			}
+			walk(sw, false, 0)
+			if len(edges) == 0 || !core.AllPathsThroughEdges(f, cl.Block(), edges) {
+				ok, why = false, "the reader is not closed exactly when the server was running (the test of the swapped flag is missing or inverted): a running server is never stopped"
+			}
+		}
+		l.Check(ok, "FRAMES", "Server.Stop", c.Rel(f.Pos()), "Stop flips the running flag and, if the server was running, closes the reader only (the reply to Goodbye can still be written)", why)
 	}
 	l.Floor("FRAMES", 6)
 
